@@ -34,9 +34,11 @@ package database
 //@ loop 3
 //@   invariant idxShape(db, idx, perDocTFs)
 //@ loop 4
-//@   invariant idxShape(db, idx, perDocTFs) && lensOK(idx, idx.N) && (forall t string :: 0 <= idx.df[t] && idx.df[t] <= idx.N) && postingsSep(idx) && postingsInRange(idx)
+//@   invariant idxShape(db, idx, perDocTFs) && lensOK(idx, idx.N) && (forall t string :: 0 <= idx.df[t] && idx.df[t] <= idx.N) && postingsSep(idx) && postingsInRange(idx) && postingsSorted(idx)
+//@   invariant forall t string, j int :: (t in idx.postings) && 0 <= j && j < len(idx.postings[t]) ==> idx.postings[t][j].docID < $i
 //@ loop 5
-//@   invariant idxShape(db, idx, perDocTFs) && lensOK(idx, idx.N) && (forall t string :: 0 <= idx.df[t] && idx.df[t] <= idx.N) && postingsSep(idx) && postingsInRange(idx) && 0 <= docID && docID < idx.N
+//@   invariant idxShape(db, idx, perDocTFs) && lensOK(idx, idx.N) && (forall t string :: 0 <= idx.df[t] && idx.df[t] <= idx.N) && postingsSep(idx) && postingsInRange(idx) && 0 <= docID && docID < idx.N && postingsSorted(idx)
+//@   invariant forall t string, j int :: (t in idx.postings) && 0 <= j && j < len(idx.postings[t]) ==> idx.postings[t][j].docID <= docID && (idx.postings[t][j].docID == docID ==> (t in $visited))
 
 //@ func (*Database).buildTFIDFSearcher
 //@   modifies db.*
@@ -118,21 +120,35 @@ package database
 //@ pure func fieldsOK(f docLensF) bool = 0.0 <= f.cmd && f.cmd <= 1.0 && 0.0 <= f.desc && f.desc <= 1.0 && 0.0 <= f.keys && f.keys <= 1.0 && 0.0 <= f.tags && f.tags <= 1.0
 //@ pure func weightsOK(f docLensF) bool = f.cmd > 0.0 && f.desc > 0.0 && f.keys > 0.0 && f.tags > 0.0
 //@ pure func paramsOK(p bm25fParams) bool = p.k1 > 0.0 && p.minIDF >= 0.0 && fieldsOK(p.b) && weightsOK(p.w)
-//@ pure func idxOK2(db *Database, idx *universalIndex) bool = idx != nil && idx.N == len(db.Commands) && len(idx.docLens) == idx.N && idx.postings != nil && idx.df != nil && paramsOK(idx.params) && (forall t string :: 0 <= idx.df[t] && idx.df[t] <= idx.N) && (forall d int :: 0 <= d && d < len(idx.docLens) ==> idx.docLens[d].cmd >= 0 && idx.docLens[d].desc >= 0 && idx.docLens[d].keys >= 0 && idx.docLens[d].tags >= 0) && (forall t string, j int :: (t in idx.postings) && 0 <= j && j < len(idx.postings[t]) ==> 0 <= idx.postings[t][j].docID && idx.postings[t][j].docID < idx.N)
+//@ pure func idxOK2(db *Database, idx *universalIndex) bool = idx != nil && idx.N == len(db.Commands) && len(idx.docLens) == idx.N && idx.postings != nil && idx.df != nil && paramsOK(idx.params) && (forall t string :: 0 <= idx.df[t] && idx.df[t] <= idx.N) && (forall d int :: 0 <= d && d < len(idx.docLens) ==> idx.docLens[d].cmd >= 0 && idx.docLens[d].desc >= 0 && idx.docLens[d].keys >= 0 && idx.docLens[d].tags >= 0) && (forall t string, j int :: (t in idx.postings) && 0 <= j && j < len(idx.postings[t]) ==> 0 <= idx.postings[t][j].docID && idx.postings[t][j].docID < idx.N) && postingsSorted(idx)
+//@ pure func postingsSorted(idx *universalIndex) bool = forall t string, a, b int :: (t in idx.postings) && 0 <= a && a < b && b < len(idx.postings[t]) ==> idx.postings[t][a].docID < idx.postings[t][b].docID
 //@ pure func idxOK(db *Database) bool = idxOK2(db, db.uIndex)
 
+// BM25F contribution of one term to one document: the sum over the four fields in which the
+// term occurs (tf > 0) of the field formula, with the per-field weights and b of the index.
+// bm25Term and bm25Field are opaque to callers; their definitions are unit-local to the two
+// functions that must compute them (keeps the non-linear arithmetic out of every other query).
+//@ pure func bm25Term(p bm25fParams, avg docLensF, dl docLens, tf fieldTF) float64
 //@ func bm25IDF
 //@   pure
+//@   ensures[C03.idf-formula] result == math.Log((real(n) - real(df) + 0.5) / (real(df) + 0.5) + 1.0)
 //@   ensures[C01.idf-nonneg] 0 <= df && df <= n ==> result >= 0.0
 
+// The documented field-weighted BM25 term (over the reals):
+//   w*tf*(k1+1) / (w*tf + k1*((1-b) + b*dl/avgdl)),   avgdl taken as 1 when it is not positive
+//@ pure func bm25Field(k1 float64, tf float64, dl float64, avgdl float64, w float64, b float64) float64
 //@ func (*universalIndex).fieldBM25
 //@   requires idx.params.k1 > 0.0
 //@   ensures[C01.field-nonneg] tf > 0.0 && dl >= 0.0 && w > 0.0 && 0.0 <= b && b <= 1.0 ==> result >= 0.0
+//@   defines bm25Field(idx.params.k1, tf, dl, avgdl, w, b) == (w * tf * (idx.params.k1 + 1.0)) / (w * tf + idx.params.k1 * ((1.0 - b) + b * (dl / (avgdl <= 0.0 ? 1.0 : avgdl))))
+//@   ensures[C03.field-formula] result == bm25Field(idx.params.k1, tf, dl, avgdl, w, b)
 
 //@ func (*universalIndex).termBM25F
 //@   requires paramsOK(idx.params) && 0 <= docID && docID < len(idx.docLens)
 //@   requires idx.docLens[docID].cmd >= 0 && idx.docLens[docID].desc >= 0 && idx.docLens[docID].keys >= 0 && idx.docLens[docID].tags >= 0
 //@   ensures[C01.term-nonneg] result >= 0.0
+//@   defines bm25Term(idx.params, idx.avgLen, idx.docLens[docID], tf) == (tf.cmd > 0 ? bm25Field(idx.params.k1, real(tf.cmd), real(idx.docLens[docID].cmd), idx.avgLen.cmd, idx.params.w.cmd, idx.params.b.cmd) : 0.0) + (tf.desc > 0 ? bm25Field(idx.params.k1, real(tf.desc), real(idx.docLens[docID].desc), idx.avgLen.desc, idx.params.w.desc, idx.params.b.desc) : 0.0) + (tf.keys > 0 ? bm25Field(idx.params.k1, real(tf.keys), real(idx.docLens[docID].keys), idx.avgLen.keys, idx.params.w.keys, idx.params.b.keys) : 0.0) + (tf.tags > 0 ? bm25Field(idx.params.k1, real(tf.tags), real(idx.docLens[docID].tags), idx.avgLen.tags, idx.params.w.tags, idx.params.b.tags) : 0.0)
+//@   ensures[C03.term-formula] result == bm25Term(idx.params, idx.avgLen, idx.docLens[docID], tf)
 
 // scoresOK: every scored document is a real, filter-eligible command with a non-negative score.
 //@ pure func scoresOK(db *Database, scores map[int]float64, o SearchOptions) bool = scores != nil && (forall d int :: (d in scores) ==> 0 <= d && d < len(db.Commands) && scores[d] >= 0.0 && platOK(&db.Commands[d], o) && pipeOK(&db.Commands[d], o))
@@ -142,16 +158,30 @@ package database
 //@   requires forall j int :: 0 <= j && j < len(postings) ==> 0 <= postings[j].docID && postings[j].docID < idx.N
 //@   requires scoresOK(db, scores, options)
 //@   modifies scores[*]
+//@   requires forall a, b int :: 0 <= a && a < b && b < len(postings) ==> postings[a].docID < postings[b].docID
 //@   ensures[C01.postings-scores-ok] scoresOK(db, scores, options)
 //@   ensures[C13.postings-keeps-keys] forall d int :: old(d in scores) ==> (d in scores)
+//@   ensures[C03.postings-domain] forall d int :: (d in scores) <==> (old(d in scores) || (exists j int :: 0 <= j && j < len(postings) && postings[j].docID == d && platOK(&db.Commands[d], options) && pipeOK(&db.Commands[d], options)))
+//@   ensures[C03.postings-score] forall j int :: 0 <= j && j < len(postings) && platOK(&db.Commands[postings[j].docID], options) && pipeOK(&db.Commands[postings[j].docID], options) ==> scores[postings[j].docID] == old(scores[postings[j].docID]) + (idf * boost) * bm25Term(idx.params, idx.avgLen, idx.docLens[postings[j].docID], postings[j].tf)
+//@   ensures[C13.postings-others] forall d int :: (forall j int :: 0 <= j && j < len(postings) ==> postings[j].docID != d) ==> scores[d] == old(scores[d]) && ((d in scores) <==> old(d in scores))
 //@ loop 1
 //@   invariant scoresOK(db, scores, options)
 //@   invariant forall d int :: old(d in scores) ==> (d in scores)
+//@   invariant forall d int :: (d in scores) <==> (old(d in scores) || (exists j int :: 0 <= j && j < $i && postings[j].docID == d && platOK(&db.Commands[d], options) && pipeOK(&db.Commands[d], options)))
+//@   invariant forall j int :: 0 <= j && j < $i && platOK(&db.Commands[postings[j].docID], options) && pipeOK(&db.Commands[postings[j].docID], options) ==> scores[postings[j].docID] == old(scores[postings[j].docID]) + (idf * boost) * bm25Term(idx.params, idx.avgLen, idx.docLens[postings[j].docID], postings[j].tf)
+//@   invariant forall d int :: (forall j int :: 0 <= j && j < $i ==> postings[j].docID != d) ==> scores[d] == old(scores[d]) && ((d in scores) <==> old(d in scores))
+//@   invariant forall k int :: $i <= k && k < len(postings) ==> scores[postings[k].docID] == old(scores[postings[k].docID])
 
+// termHits: the index lists document d under term t, the term is informative enough (idf at least
+// minIDF) and d passes the platform / pipeline filters.
+//@ opaque func termHits(db *Database, idx *universalIndex, t string, d int, o SearchOptions) bool = (t in idx.postings) && bm25IDF(idx.N, idx.df[t]) >= idx.params.minIDF && (exists j int :: 0 <= j && j < len(idx.postings[t]) && idx.postings[t][j].docID == d && platOK(&db.Commands[d], o) && pipeOK(&db.Commands[d], o))
+// hitSome: some content word of the token sequence q hits document d.
+//@ opaque func hitSome(db *Database, idx *universalIndex, q seq, d int, o SearchOptions) bool = exists i int :: 0 <= i && i < seqlen(q) && termHits(db, idx, seqat(q, i), d, o)
 //@ func (*Database).calculateInitialScores
 //@   requires idxOK(db)
 //@   modifies nothing
 //@   ensures[C01.initial-scores-ok] fresh(result) && scoresOK(db, result, options)
+//@   ensures[C03.candidates-exact] forall d int :: (d in result) <==> (exists i int :: 0 <= i && i < len(terms) && termHits(db, db.uIndex, terms[i], d, options))
 //@ loop 1
 //@   invariant termBoost != nil && fresh(termBoost) && scores != nil && fresh(scores) && len(scores) == 0
 //@ loop 2
@@ -160,6 +190,7 @@ package database
 //@   invariant termBoost != nil && fresh(termBoost) && scores != nil && fresh(scores) && len(scores) == 0
 //@ loop 4
 //@   invariant termBoost != nil && fresh(termBoost) && fresh(scores) && scoresOK(db, scores, options) && scores != termBoost
+//@   invariant forall d int :: (d in scores) <==> (exists i int :: 0 <= i && i < $i && termHits(db, idx, terms[i], d, options))
 
 // Multiplicative boosts are strictly positive (they re-rank, never flip a sign).
 //@ func applyIntentBoost
@@ -189,8 +220,12 @@ package database
 //@   ensures[C01.collect-ok] fresh(result) && len(result) == len(scores) && resultsOK(db, result)
 //@   ensures[C04.collect-gates] gatesOK(result, options)
 //@   ensures[C04.collect-from-scores] forall k int :: 0 <= k && k < len(result) ==> (cmdIdx(db, result[k].Command) in scores)
+//@   ensures[C03.collect-all] forall d int :: (d in scores) ==> (exists k int :: 0 <= k && k < len(result) && result[k].Command == &db.Commands[d])
+//@   ensures[C03.collect-score] pq == nil && options.PipelineBoost <= 0.0 ==> (forall k int :: 0 <= k && k < len(result) ==> result[k].Score == scores[cmdIdx(db, result[k].Command)])
 //@ loop 1
 //@   invariant fresh(results) && len(results) == $n && gatesOK(results, options)
+//@   invariant forall d int :: (d in $visited) ==> (exists k int :: 0 <= k && k < len(results) && results[k].Command == &db.Commands[d])
+//@   invariant pq == nil && options.PipelineBoost <= 0.0 ==> (forall k int :: 0 <= k && k < len(results) ==> results[k].Score == scores[cmdIdx(db, results[k].Command)])
 //@   invariant forall k int :: 0 <= k && k < len(results) ==> inDB(db, results[k].Command) && results[k].Score >= 0.0 && (cmdIdx(db, results[k].Command) in scores) && (cmdIdx(db, results[k].Command) in $visited)
 //@   invariant distinctCmds(results)
 
@@ -272,6 +307,7 @@ package database
 //@   ensures[C01.post-ok] resultsOK(db, result) && sortedDesc(result) && elig(result)
 //@   ensures[C07.post-nonempty] len(result) <= len(results) && (len(results) > 0 ==> len(result) > 0)
 //@   ensures[C19.optional] db.embeddingIndex == nil ==> calls("(*database.Database).applySemanticBoost") == 0
+//@   ensures[C03.nlp-off-same-results] !options.UseNLP && db.embeddingIndex == nil ==> (forall k int :: 0 <= k && k < len(results) ==> results[k] == old(results[k]))
 //@   ensures[C19.nlp-off-untouched] !options.UseNLP && db.embeddingIndex == nil ==> result == results && calls("(*database.Database).rerankWithNLP") == 0 && calls("(*database.Database).cascadingBoost") == 0
 
 // ---------------------------------------------------------------------------
@@ -298,9 +334,14 @@ package database
 // ---------------------------------------------------------------------------
 // SearchUniversal
 
+// tokensOf: the content words of a text (the tokenizer's output as a mathematical sequence). That
+// the tokenizer is a function of its argument is assumed here and validated by the bounded suite
+// C03-index-scan; what a token is (lower-casing, splitting, stop words) stays inside the tokenizer.
+//@ pure func tokensOf(s string) seq
 //@ func normalizeAndTokenize
 //@   modifies nothing
 //@   ensures[C01.tokens-fresh] fresh(result)
+//@   trusted-ensures strlist(result) == tokensOf(s)
 //@ func (*Database).enhanceQueryWithNLP
 //@   modifies terms[*]
 //@   ensures[C01.enhance] pq != nil && fresh(pq) && len(enhancedTerms) >= len(terms) && (fresh(terms) ==> fresh(enhancedTerms))
@@ -308,17 +349,50 @@ package database
 //@   invariant len(terms) >= len(old(terms)) && ((base(terms) == base(old(terms)) && offset(terms) == offset(old(terms)) && cap(terms) == cap(old(terms))) || fresh(terms))
 //@ loop 2
 //@   invariant len(terms) >= len(old(terms)) && ((base(terms) == base(old(terms)) && offset(terms) == offset(old(terms)) && cap(terms) == cap(old(terms))) || fresh(terms))
+// Term selection (C03 / C06): short term lists pass through untouched; for longer ones each of
+// the first four terms is kept (marked isOriginal by scoreTerms, never dropped by
+// filterAndSortTerms) and nothing is invented.
 //@ func (*Database).scoreTerms
-//@   requires db.uIndex != nil
-//@   opt inline yes
+//@   requires db.uIndex != nil && preserveCount >= 0
+//@   modifies nothing
+//@   ensures[C06.score-terms-keeps-original] forall i int :: 0 <= i && i < len(terms) && i < preserveCount ==> (exists k int :: 0 <= k && k < len(result) && result[k].term == terms[i] && result[k].isOriginal)
+//@   ensures[C03.score-terms-subset] forall k int :: 0 <= k && k < len(result) ==> (exists i int :: 0 <= i && i < len(terms) && terms[i] == result[k].term)
+//@   ensures fresh(result) && len(result) <= len(terms)
+//@ loop 1
+//@   invariant seen != nil && fresh(seen) && fresh(list) && len(list) <= $i && cap(list) == len(terms)
+//@   invariant forall t string :: seen[t] ==> (exists i int :: 0 <= i && i < $i && terms[i] == t)
+//@   invariant forall i int :: 0 <= i && i < $i && i < preserveCount ==> (exists k int :: 0 <= k && k < len(list) && list[k].term == terms[i] && list[k].isOriginal)
+//@   invariant forall k int :: 0 <= k && k < len(list) ==> (exists i int :: 0 <= i && i < $i && terms[i] == list[k].term)
+//@ func flattenTermList
+//@   modifies nothing
+//@   ensures[C06.flatten-exact] fresh(result) && len(result) == len(list) && (forall k int :: 0 <= k && k < len(list) ==> result[k] == list[k].term)
+//@ loop 1
+//@   invariant fresh(out) && len(out) == $i && (forall k int :: 0 <= k && k < $i ==> out[k] == list[k].term)
 //@ func (*Database).filterAndSortTerms
 //@   requires maxTerms >= 0 && maxTerms < len(list)
-//@   opt inline yes
+//@   modifies nothing
+//@   ensures[C03.filter-subset] forall m int :: 0 <= m && m < len(result) ==> (exists k int :: 0 <= k && k < len(list) && list[k].term == result[m])
+//@   ensures[C06.filter-keeps-original] fresh(result) && (forall k int :: 0 <= k && k < len(list) && list[k].isOriginal ==> (exists m int :: 0 <= m && m < len(result) && result[m] == list[k].term))
+//@ loop 1
+//@   invariant fresh(originalList) && fresh(enhancedList) && (cap(originalList) > 0 && cap(enhancedList) > 0 ==> base(originalList) != base(enhancedList))
+//@   invariant forall k int :: 0 <= k && k < $i && list[k].isOriginal ==> (exists m int :: 0 <= m && m < len(originalList) && originalList[m].term == list[k].term)
+//@   invariant forall m int :: 0 <= m && m < len(originalList) ==> (exists k int :: 0 <= k && k < len(list) && list[k].term == originalList[m].term)
+//@   invariant forall m int :: 0 <= m && m < len(enhancedList) ==> (exists k int :: 0 <= k && k < len(list) && list[k].term == enhancedList[m].term)
+//@ loop 2
+//@   invariant fresh(out) && len(out) == $i && (cap(out) > 0 && cap(originalList) > 0 ==> base(out) != base(originalList)) && (cap(out) > 0 && cap(enhancedList) > 0 ==> base(out) != base(enhancedList))
+//@   invariant forall m int :: 0 <= m && m < $i ==> out[m] == originalList[m].term
+//@   invariant forall m int :: 0 <= m && m < len(enhancedList) ==> (exists k int :: 0 <= k && k < len(list) && list[k].term == enhancedList[m].term)
 //@ loop 3
-//@   invariant 0 <= i
+//@   invariant 0 <= i && fresh(out) && len(out) >= len(originalList) && (cap(out) > 0 && cap(originalList) > 0 ==> base(out) != base(originalList)) && (cap(out) > 0 && cap(enhancedList) > 0 ==> base(out) != base(enhancedList))
+//@   invariant forall m int :: 0 <= m && m < len(originalList) ==> out[m] == originalList[m].term
+//@   invariant forall m int :: 0 <= m && m < len(enhancedList) ==> (exists k int :: 0 <= k && k < len(list) && list[k].term == enhancedList[m].term)
+//@   invariant forall m int :: 0 <= m && m < len(out) ==> (exists k int :: 0 <= k && k < len(list) && list[k].term == out[m])
 //@ func (*Database).selectTopTerms
 //@   modifies nothing
 //@   ensures[C01.select-terms] result == terms || fresh(result)
+//@   ensures[C03.select-all-when-short] (maxTerms <= 0 || len(terms) <= maxTerms) ==> result == terms
+//@   ensures[C03.select-subset] forall m int :: 0 <= m && m < len(result) ==> (exists i int :: 0 <= i && i < len(terms) && terms[i] == result[m])
+//@   ensures[C03.first-four+C06.first-four] forall i int :: 0 <= i && i < len(terms) && i < 4 ==> (exists m int :: 0 <= m && m < len(result) && result[m] == terms[i])
 
 // dbInv: what every Database built by the loaders satisfies (the index, when it matches the
 // command list in size, was built by BuildUniversalIndex; the re-ranker is well-formed).
@@ -335,6 +409,17 @@ package database
 //@   ensures[C01.sorted] sortedDesc(result)
 //@   ensures[C04.gates] gatesOK(result, options)
 //@   ensures[C01.keeps-db] db.Commands == old(db.Commands) && dbInv(db)
+//@   ensures[C03.index-current] db.uIndex != nil && db.uIndex.N == len(db.Commands)
+//@   ensures[C03.candidates-sound] !options.UseNLP && !options.UseFuzzy && db.embeddingIndex == nil ==> (forall k int :: 0 <= k && k < len(result) ==> hitSome(db, db.uIndex, tokensOf(query), cmdIdx(db, result[k].Command), options))
+//@   ensures[C03.candidates-complete] !options.UseNLP && db.embeddingIndex == nil && len(result) < effLimit(options.Limit) && seqlen(tokensOf(query)) <= (options.TopTermsCap <= 0 ? 10 : options.TopTermsCap) ==> (forall d int :: hitSome(db, db.uIndex, tokensOf(query), d, options) ==> (exists k int :: 0 <= k && k < len(result) && result[k].Command == &db.Commands[d]))
+//@   hint[C03.scores-sound] collectResults !options.UseNLP ==> (forall d int :: (d in scores) ==> hitSome(db, db.uIndex, tokensOf(query), d, options))
+//@   hint[C03.scores-complete] collectResults !options.UseNLP && seqlen(tokensOf(query)) <= termsCap ==> (forall d int :: hitSome(db, db.uIndex, tokensOf(query), d, options) ==> (d in scores))
+//@   hint[C03.terms-are-tokens] calculateInitialScores !options.UseNLP ==> (forall m int :: 0 <= m && m < len(terms) ==> (exists i int :: 0 <= i && i < seqlen(tokensOf(query)) && seqat(tokensOf(query), i) == terms[m]))
+//@   hint[C03.sorted-from-scores] applyPostScoringBoosts forall k int :: 0 <= k && k < len(results) ==> (cmdIdx(db, results[k].Command) in scores)
+//@   hint[C03.sorted-all-scores] applyPostScoringBoosts forall d int :: (d in scores) ==> (exists k int :: 0 <= k && k < len(results) && results[k].Command == &db.Commands[d])
+//@   hint[C03.final-from-scores] return !options.UseNLP && db.embeddingIndex == nil ==> (forall k int :: 0 <= k && k < len(results) ==> (cmdIdx(db, results[k].Command) in scores))
+//@   hint[C03.final-all-scores] return !options.UseNLP && db.embeddingIndex == nil && len(results) < options.Limit ==> (forall d int :: (d in scores) ==> (exists k int :: 0 <= k && k < len(results) && results[k].Command == &db.Commands[d]))
+//@   hint[C03.final-complete] return !options.UseNLP && db.embeddingIndex == nil && len(results) < options.Limit && seqlen(tokensOf(query)) <= termsCap ==> (forall d int :: hitSome(db, db.uIndex, tokensOf(query), d, options) ==> (exists k int :: 0 <= k && k < len(results) && results[k].Command == &db.Commands[d]))
 
 // ---------------------------------------------------------------------------
 // Legacy searches and helpers (C01, C10): helpers are always handed a command of the list.
